@@ -49,7 +49,19 @@ def run_plans(wd, plans, tag, v=None, key="conn:abort"):
     trace, blobs, decoded = [os.path.join(wd, tag + x) for x in (".trace.ndjson", ".blobs.ndjson", ".decoded.ndjson")]
     rc, err = core.run_harness(vh, "connect", ["--plans", pp, "--trace", trace, "--blobs", blobs], timeout=3000)
     if rc is not None and rc < 0 and v is not None and os.path.exists(trace):
-        lines = [l for l in open(trace).read().split("\n") if l.strip()]
+        def complete(path):
+            good = []
+            for l in open(path, errors="replace").read().split("\n"):
+                if not l.strip():
+                    continue
+                try:
+                    json.loads(l); good.append(l)
+                except ValueError:
+                    break                      # the process died while writing this line
+            return good
+        lines = complete(trace)
+        if os.path.exists(blobs):
+            open(blobs, "w").write("\n".join(complete(blobs)) + "\n")
         last = next((json.loads(l) for l in reversed(lines) if '"ev":"reset"' in l.replace('": "', '":"')), {})
         where = re.sub(r"\s+", " ", " ".join(x.strip() for x in err.split("\n") if "rdp::" in x)[:300])
         v.violation(key, "the driver process died (rc %s: abort / refused allocation / stack overflow) inside the library while running plan %s: %s" % (rc, last.get("run"), where),
